@@ -18,7 +18,8 @@ type Env struct {
 	t     *fnTrans
 	st    *State
 	old   *State
-	vars  map[string]bound
+	vars  map[string]bound // quantifier variables, results, predicate parameters
+	prm   map[string]bound // function parameters (entry values); shadowed by live local cells
 	local func(name string) (Val, types.Type, bool)
 	pkg   *types.Package
 	depth int
@@ -226,6 +227,13 @@ func (e *Env) ident(name string) (Val, types.Type) {
 			return v, ty
 		}
 	}
+	if b, ok := e.prm[name]; ok {
+		if b.v.P != nil && b.v.T == "" {
+			r, _ := t.loadPath(e.st, b.v.P)
+			return Val{T: r}, b.ty
+		}
+		return b.v, b.ty
+	}
 	if g, ok := t.eng.contracts.Ghosts[name]; ok {
 		sv := t.ghostVar(g, e.pkgOf(g.Pkg))
 		return Val{T: t.get(e.st, sv.Name)}, sv.Typ
@@ -285,7 +293,8 @@ func (e *Env) selectField(x *ESelect) (Val, types.Type) {
 	t := e.t
 	// qualified identifier pkg.Name ?
 	if id, ok := x.X.(*EIdent); ok {
-		if _, bnd := e.vars[id.Name]; !bnd {
+		_, isPrm := e.prm[id.Name]
+		if _, bnd := e.vars[id.Name]; !bnd && !isPrm {
 			known := false
 			if e.local != nil {
 				_, _, known = e.local(id.Name)
@@ -360,7 +369,7 @@ func (e *Env) index(x *EIndex) (Val, types.Type) {
 	case *types.Slice:
 		ev := t.elemsVar(u.Elem())
 		idx := e.lit(i, it, tInt)
-		return Val{T: fmt.Sprintf("(select (select %s (sbase %s)) (+ (soff %s) %s))", t.get(e.st, ev.Name), v.T, v.T, idx)}, u.Elem()
+		return Val{T: fmt.Sprintf("(select (select %s (sbase %s)) (ix (soff %s) %s))", t.get(e.st, ev.Name), v.T, v.T, idx)}, u.Elem()
 	case *types.Array:
 		if u.Len() < 0 {
 			return Val{T: fmt.Sprintf("(seq_at_%s %s %s)", typeKey(u.Elem()), v.T, e.lit(i, it, tInt))}, u.Elem()
@@ -537,7 +546,9 @@ func (e *Env) call(x *ECall) (Val, types.Type) {
 		if e.old == nil {
 			return e.fail("old() not available here")
 		}
-		return e.with(e.old).eval(x.Args[0])
+		oe := e.with(e.old)
+		oe.local = nil // locals do not exist in the pre-state: names mean the parameters' entry values
+		return oe.eval(x.Args[0])
 	case "atlock", "atunlock":
 		snap := &State{m: map[string]Term{}}
 		for name := range t.vars {
@@ -608,6 +619,15 @@ func (e *Env) call(x *ECall) (Val, types.Type) {
 			cmp = map[string]string{"<=": "bvsle", ">=": "bvsge"}[cmp]
 		}
 		return Val{T: fmt.Sprintf("(ite (%s %s %s) %s %s)", cmp, av, bv, av, bv)}, ty
+	case "fdiv", "fmod":
+		a, at := arg(0)
+		b, bt := arg(1)
+		op := map[string]string{"fdiv": "div", "fmod": "mod"}[x.Fun]
+		ty := at
+		if at == untypedInt {
+			ty = bt
+		}
+		return Val{T: fmt.Sprintf("(%s %s %s)", op, e.coerce(a, at, ty), e.coerce(b, bt, ty))}, ty
 	case "dyntype":
 		v, _ := arg(0)
 		return Val{T: fmt.Sprintf("(ityp %s)", v.T)}, tInt
